@@ -57,10 +57,26 @@ fn effects(rng: &mut Rng, gvars: &[String]) -> Vec<Cell> {
     v
 }
 
-const KINDS: [&str; 6] = ["unbound-variable", "wrong-type", "wrong-arity", "user-error", "not-a-procedure", "bad-syntax"];
+const KINDS: [&str; 7] = ["unbound-variable", "wrong-type", "wrong-arity", "user-error", "not-a-procedure", "bad-syntax", "primitive-rejects-arguments"];
+
+/// calls of mutating primitives on the helper globals vec7 (4 elements), str7 (4 characters), lst7 (3
+/// elements) that must be rejected; a rejected call must leave its target as it was
+const REJECTED_MUTATIONS: [&str; 10] = [
+    "(vector-copy! vec7 2 (vector 'a 'b 'c))",
+    "(vector-copy! vec7 3 vec7 0 4)",
+    "(vector-copy! vec7 0 (vector 'a 'b) 1 5)",
+    "(vector-fill! vec7 'z 2 9)",
+    "(vector-set! vec7 4 'q)",
+    "(string-fill! str7 #\\z 2 9)",
+    "(string-set! str7 4 #\\q)",
+    "(set-car! (cdr (cdr (cdr lst7))) 'x)",
+    "(vector-fill! vec7 'z 3 1)",
+    "(string-fill! str7 #\\z 3 1)",
+];
 
 fn failing_expr(kind: usize, rng: &mut Rng) -> Cell {
-    match kind % 6 {
+    match kind % 7 {
+        6 => parse_forms(*rng.pick(&REJECTED_MUTATIONS)).remove(0),
         0 => gen::sym(&format!("nope{}", rng.below(1000))),
         1 => gen::call("car", vec![gen::int(5)]),
         2 => gen::list(vec![gen::list(vec![gen::sym("lambda"), gen::list(vec![gen::sym("z")]), gen::sym("z")])]),
@@ -91,15 +107,16 @@ pub fn build_case(rng: &mut Rng, index: u64) -> Case {
     let pure_expr = g.expr_form();
     let probe_exprs: Vec<Cell> = (0..2).map(|_| g.expr_form()).collect();
     let rng = g.rng;
-    let kind = (index % 6) as usize;
+    let kind = (index % 7) as usize;
     tags.push(format!("kind:{}", KINDS[kind]));
-    let shape = (index / 6) % 6;
+    let shape = (index / 7) % 6;
     let fail = failing_expr(kind, rng);
     let mut steps: Vec<Step> = vec![];
     let helper = parse_forms(
         "(define (deep7 n th) (if (= n 0) (th) (+ 1 (deep7 (- n 1) th))))
          (define kk7 #f)
-         (define (probe-fail7 n) (if (= n 0) (car 'probe) (+ 1 (probe-fail7 (- n 1)))))",
+         (define (probe-fail7 n) (if (= n 0) (car 'probe) (+ 1 (probe-fail7 (- n 1)))))
+         (define vec7 (vector 1 2 3 4)) (define str7 (make-string 4 #\\a)) (define lst7 (list 1 2 3))",
     );
     for d in defs.iter().chain(helper.iter()) {
         steps.push(Step { main: vec![Item::Form(d.clone())], twin: vec![Item::Form(d.clone())], compare: true, label: "definition" });
@@ -116,7 +133,7 @@ pub fn build_case(rng: &mut Rng, index: u64) -> Case {
     )) {
         steps.push(Step { main: vec![Item::Form(d.clone())], twin: vec![Item::Form(d.clone())], compare: true, label: "definition" });
     }
-    let k_fail = match (index / 36) % 4 {
+    let k_fail = match (index / 42) % 4 {
         0 => 1,
         1 => 2,
         2 => 10,
@@ -180,6 +197,17 @@ pub fn build_case(rng: &mut Rng, index: u64) -> Case {
             steps.push(Step { main: vec![Item::Text(bad.to_string())], twin: vec![], compare: false, label: "failing-form" });
             continue;
         }
+        // one time in three the failing form also defines a keyword before it fails: a completed effect
+        // if the failure happens at run time, no effect at all if the form is rejected by the compiler
+        let mut eff = eff;
+        if rng.chance(1, 3) {
+            let name = match procs.first() {
+                Some(p) if rng.bool() => p.name.clone(),
+                _ => "mac7".to_string(),
+            };
+            tags.push("failing-form-defines-a-keyword".into());
+            eff.push(parse_forms(&format!("(define-syntax {} (syntax-rules () ((_ x ...) 'macro7)))", name)).remove(0));
+        }
         let mut main_form = vec![gen::sym("begin")];
         main_form.extend(eff.iter().cloned());
         main_form.extend(failing_tail);
@@ -208,6 +236,7 @@ pub fn build_case(rng: &mut Rng, index: u64) -> Case {
     probes.push(gen::call("probe-fail7", vec![gen::int(3)]));
     probes.extend(probe_exprs);
     probes.push(gen::call("probe-fail7", vec![gen::int(0)]));
+    probes.extend(parse_forms("(list vec7 str7 lst7) (mac7 1 2)"));
     probes.extend(parse_forms("(if (< kdn7 1) (begin (set! kdn7 (+ kdn7 1)) (kd7 500)) 'spent) (list rd7 kdn7) (+ 1 (if (< kdn7 2) (begin (set! kdn7 (+ kdn7 1)) (kd7 7)) 0)) (list rd7 kdn7)"));
     for p in probes {
         steps.push(Step { main: vec![Item::Form(p.clone())], twin: vec![Item::Form(p)], compare: true, label: "probe" });
